@@ -3,7 +3,7 @@ import json
 from collections import Counter
 from concurrent.futures import ThreadPoolExecutor
 
-from lib import vf, gensrv
+from lib import vf, gensrv, randschema
 
 
 def rawdata(line):
@@ -154,6 +154,14 @@ def run(ctx):
     cfgs = list(cfgs) + ["execsub:" + k for k in sb]
     # user-written bindings: a function-pair scalar whose marshaler can answer graphql.Null (null at non-null
     # scalar positions and list elements), a MarshalGQL scalar, an object whose fields are context methods
+    # randomly generated schemas (deterministic in the seed): interfaces implementing interfaces, unions, enums,
+    # every wrapper, recursion, schema directives - the universal resolver and the document grammar read the schema
+    for k in range(1 if ctx.tier == "quick" else 5):
+        name = randschema.write_probe(ctx.seed * 10 + k)
+        rb = gensrv.build_matrix(ctx, name, ["base"] if ctx.tier == "quick" else ["base", "follow_funcsyn_wl2"])
+        for c, v in rb.items():
+            built["%s:%s" % (name, c)] = v
+            cfgs = list(cfgs) + ["%s:%s" % (name, c)]
     bm = gensrv.build_matrix(ctx, "execboom", ["base", "follow_funcsyn_wl2"])
     for k, v in bm.items():
         built["execboom:" + k] = v
